@@ -159,6 +159,18 @@ def _flow_job(kw):
             arg = a[a.index("(") + 1 : -1]
             if nf is not None and arg != str(nf):
                 problems.append(("flow", f"scale-variation term uses {a} while the coefficient functions use nf = {nf}"))
+    # every coefficient function generated for this point is built with the number of flavours nf_default returned
+    n_kernels = 0
+    for partons, coeff in getattr(op.ev, "kernel_log", []):
+        if not (isinstance(coeff, S.ObjVal) and coeff.cinfo is not None and "nf" in coeff.attrs):
+            continue
+        fam = coeff.cinfo.fq.split("coefficient_functions.")[-1].split(".")[0]
+        if fam == "intrinsic":
+            continue  # frozen exception: intrinsic channels are built with nf = ihq - 1 (intrinsic/kernels.py) and are nf-independent
+        n_kernels += 1
+        knf = S.num_norm(coeff.attrs["nf"])
+        if nf is not None and knf != nf:
+            problems.append(("flow", f"{coeff.cinfo.fq} is built with nf = {knf} while nf_default(Q2) = {nf}"))
     sig = None
     if mode == "signature":
         # canonical signature of the operator for the NfFF-independence comparison
@@ -170,7 +182,7 @@ def _flow_job(kw):
         import hashlib
 
         sig = hashlib.sha1("|".join(parts).encode()).hexdigest()
-    return ("ok", problems, nf, sig, len(atoms))
+    return ("ok", problems, nf, sig, n_kernels)
 
 
 def check_flow(rep, proj, tier):
@@ -188,6 +200,7 @@ def check_flow(rep, proj, tier):
     outs = sweep.run_cells(_flow_job, jobs)
     sigs = {}
     n_ok = 0
+    n_kernels = 0
     for kw, o in zip(jobs, outs):
         label = f"{kw['obs']}|{kw['process']}|{kw['fns']}|NfFF={kw['nfff']}|nf={kw['nf']}"
         if o[0] == "fold":
@@ -196,7 +209,8 @@ def check_flow(rep, proj, tier):
             else:
                 rep.undecided("C06.flow", "", label, f"not foldable ({o[1]}): {o[2]}")
             continue
-        _, problems, nf, sig, natoms = o
+        _, problems, nf, sig, nk = o
+        n_kernels += nk
         exp_nf = kw["nf"] if kw["fns"] == "ZM-VFNS" else kw["nfff"]
         if nf != exp_nf:
             problems = problems + [("single", f"nf_default yields {nf}, expected {exp_nf} ({'NfFF' if kw['fns'] != 'ZM-VFNS' else 'count of passed thresholds'})")]
@@ -211,7 +225,7 @@ def check_flow(rep, proj, tier):
             else:
                 rep.ok(f"C06.{rule}", "", label, {"atlas": "matching scales (m_q k_q)^2 in order c,b,t; origin (Q0^2, nf0)",
                                                   "single": f"nf_default called once with (Q2, runner atlas) -> {nf}",
-                                                  "flow": "no threshold symbols in the operator; beta coefficients at the same nf"}[rule])
+                                                  "flow": "no threshold symbols in the operator; beta coefficients and every generated coefficient function at the same nf"}[rule])
         n_ok += 1
     for (obs, proc, nf), lst in sorted(sigs.items()):
         distinct = {s_ for _, s_ in lst}
@@ -219,6 +233,7 @@ def check_flow(rep, proj, tier):
                   f"operator identical for NfFF in {sorted(n for n, _ in lst)} (depends on thresholds only through nf)",
                   f"ZM-VFNS operator changes with NfFF ({sorted(n for n, _ in lst)}): something other than nf_default's value is used", key="nfff-independence")
     rep.floor("flow cells", n_ok, 40)
+    rep.floor("kernels whose nf was compared with nf_default", n_kernels, 300)
 
 
 def check_eko(rep):
